@@ -31,9 +31,10 @@ KINDS = {
     'embedded': ['canon', 'cl', 'mime'],      # body that looks like a header block
     'bigbody': ['canon', 'chunked_ext', 'big'],     # body longer than one 4096-byte read
     'biggz': ['lf', 'cl', 'biggz'],
+    'huge': ['canon', 'cl', 'huge'],          # block longer than the writer's 64 KiB buffer
 }
 ORDER = ['canon', 'lfonly', 'chunked_tr', 'empty', 'binary', 'repeat', 'nospace', 'gzip',
-         'junk', 'bighdr', 'n404', 'embedded', 'bigbody', 'biggz']
+         'junk', 'bighdr', 'n404', 'embedded', 'bigbody', 'biggz', 'huge']
 BITS = ['compress', 'digests', 'cdx', 'rollover', 'preexisting', 'log', 'extra', 'dedup']
 
 SAME_URL = 'http://h.test/same'
